@@ -8,9 +8,10 @@ Proved: `remove_rows` / `remove_zero_rows` / `remove_tautologies` return a sub-s
 canonical empty / whole-space polytope) and `remove_zero_rows`, `remove_tautologies` keep the point set.
 Also: `normalize` (division of rows by positive numbers; the square roots enter as parameters) and
 `remove_redundant_row_constraints` with an exact solver (threshold 0).
-Open: `remove_duplicate_rows` (`relative_eq` on normalised rows is not an equivalence of half-spaces, see the known
-finding F-C15-duplicate-rows-below-epsilon) and the `f64::EPSILON` slack of `remove_redundant_row_constraints`;
-both are covered by exact set-equality decisions on every generated system.
+`remove_duplicate_rows` is proved for the exact comparison of the normalised rows ("positive multiple of an earlier
+row") and for every comparison that only identifies equal half-spaces; the code's `relative_eq` is not such a
+comparison below `f64::EPSILON` (known finding F-C15-duplicate-rows-below-epsilon).
+Open: the `f64::EPSILON` slack of `remove_redundant_row_constraints` (decided by exact set equality per system).
 -/
 set_option linter.unusedSectionVars false
 set_option linter.unusedVariables false
@@ -279,5 +280,145 @@ theorem C15_remove_redundant_exact {σ : Type} (lp : LPOracle σ α) (hopt : Opt
   intro rb hrb
   obtain ⟨j, hj, rfl⟩ := List.mem_iff_getElem.mp hrb
   exact hx j hj (by simp)
+
+theorem dedupAux_sublist (eqv : List α × α → List α × α → Bool) (seen rs : List (List α × α)) :
+    (Poly.dedupAux eqv seen rs).Sublist rs := by
+  induction rs generalizing seen with
+  | nil => simp [Poly.dedupAux]
+  | cons r rs ih =>
+    simp only [Poly.dedupAux]
+    split
+    · exact (ih _).cons r
+    · exact (ih _).cons_cons r
+
+/-- a comparison of rows that only identifies rows describing the same half-space -/
+def SoundEqv (eqv : List α × α → List α × α → Bool) : Prop :=
+  ∀ r r', eqv r r' = true → ∀ x : List α, dot r.1 x ≤ r.2 ↔ dot r'.1 x ≤ r'.2
+
+theorem dedupAux_mem (eqv : List α × α → List α × α → Bool) (h : SoundEqv eqv) (x : List α)
+    (seen rs : List (List α × α)) (hs : ∀ s ∈ seen, dot s.1 x ≤ s.2) :
+    (∀ r ∈ Poly.dedupAux eqv seen rs, dot r.1 x ≤ r.2) ↔ (∀ r ∈ rs, dot r.1 x ≤ r.2) := by
+  induction rs generalizing seen with
+  | nil => simp [Poly.dedupAux]
+  | cons r rs ih =>
+    simp only [Poly.dedupAux]
+    split
+    · rename_i hany
+      obtain ⟨s, hsm, he⟩ := List.any_eq_true.mp hany
+      have hr : dot r.1 x ≤ r.2 := (h r s he x).mpr (hs s hsm)
+      rw [ih (seen ++ [r]) (by
+        intro s' hs'
+        rcases List.mem_append.mp hs' with h1 | h1
+        · exact hs s' h1
+        · simp only [List.mem_singleton] at h1; subst h1; exact hr)]
+      simp [hr]
+    · simp only [List.forall_mem_cons]
+      constructor
+      · rintro ⟨hr, hrest⟩
+        refine ⟨hr, ?_⟩
+        exact (ih (seen ++ [r]) (by
+          intro s' hs'
+          rcases List.mem_append.mp hs' with h1 | h1
+          · exact hs s' h1
+          · simp only [List.mem_singleton] at h1; subst h1; exact hr)).mp hrest
+      · rintro ⟨hr, hrest⟩
+        refine ⟨hr, ?_⟩
+        exact (ih (seen ++ [r]) (by
+          intro s' hs'
+          rcases List.mem_append.mp hs' with h1 | h1
+          · exact hs s' h1
+          · simp only [List.mem_singleton] at h1; subst h1; exact hr)).mpr hrest
+
+theorem posMultiple_sound : SoundEqv (Poly.posMultiple : List α × α → List α × α → Bool) := by
+  intro r r' h x
+  unfold Poly.posMultiple at h
+  split at h
+  · simp at h
+  · rename_i a a' _
+    simp only [Bool.and_eq_true, Bool.not_eq_true', decide_eq_false_iff_not, not_le, beq_iff_eq] at h
+    obtain ⟨⟨hc, h1⟩, h2⟩ := h
+    rw [h1, h2, dot_smul_left]
+    exact mul_le_mul_iff_right₀ hc
+
+theorem absV_nonpos_iff (a : α) : Poly.absV a ≤ 0 ↔ a = 0 := by
+  unfold Poly.absV
+  split
+  · constructor
+    · intro h; exact le_antisymm h ‹0 ≤ a›
+    · intro h; rw [h]
+  · rename_i hn
+    constructor
+    · intro h; exact absurd (by linarith : 0 ≤ a) hn
+    · intro h; rw [h] at hn; exact absurd (le_refl 0) hn
+
+theorem relEq_zero (a b : α) (h : Poly.relEq 0 a b = true) : a = b := by
+  unfold Poly.relEq at h
+  simp only [mul_zero, Bool.or_self, decide_eq_true_eq] at h
+  have := (absV_nonpos_iff (a - b)).mp h
+  linarith
+
+theorem zip_all_eq (u v : List α) (hl : u.length = v.length) (h : ∀ p ∈ u.zip v, p.1 = p.2) : u = v := by
+  induction u generalizing v with
+  | nil => cases v with
+    | nil => rfl
+    | cons _ _ => simp at hl
+  | cons a u ih =>
+    cases v with
+    | nil => simp at hl
+    | cons b v =>
+      simp only [List.zip_cons_cons, List.forall_mem_cons] at h
+      rw [h.1, ih v (by simpa using hl) h.2]
+
+/-- with `eps = 0` the comparison inside `remove_duplicate_rows` identifies only rows with the same half-space -/
+theorem dupEqv_zero_sound : SoundEqv (Poly.dupEqv (0 : α)) := by
+  intro r r' h x
+  unfold Poly.dupEqv at h
+  simp only at h
+  split at h
+  · exact posMultiple_sound r r' h x
+  · split at h
+    · simp only [Bool.and_eq_true, beq_iff_eq, List.all_eq_true] at h
+      obtain ⟨⟨hl, hz⟩, hb⟩ := h
+      have h1 : r.1 = r'.1 := zip_all_eq _ _ hl (fun p hp => relEq_zero _ _ (hz p hp))
+      have h2 : r.2 = r'.2 := relEq_zero _ _ hb
+      rw [h1, h2]
+    · simp at h
+
+/-- `remove_duplicate_rows` (any `eps`): only rows are dropped -/
+theorem C15_remove_duplicate_rows_subseq (eps : α) (p : Aff α) :
+    (Poly.removeDuplicateRows eps p).rows.Sublist p.rows := by
+  unfold Poly.removeDuplicateRows
+  rw [ofRows_rows]
+  exact dedupAux_sublist _ _ _
+
+/-- `remove_duplicate_rows` with the exact comparison (`eps = 0`): the point set is unchanged.  PARTIAL: the code runs
+    with `eps = f64::EPSILON`, for which the statement is false (`C15_remove_duplicate_rows_eps_counterexample`,
+    known finding F-C15-duplicate-rows-below-epsilon). -/
+theorem C15_remove_duplicate_rows_partial (p : Aff α) (x : List α) :
+    Poly.Mem (Poly.removeDuplicateRows 0 p) x ↔ Poly.Mem p x := by
+  unfold Poly.removeDuplicateRows Poly.Mem
+  rw [ofRows_rows]
+  exact dedupAux_mem _ dupEqv_zero_sound x [] p.rows (by simp)
+
+/-- the same for any comparison that only identifies equal half-spaces -/
+theorem C15_remove_duplicate_rows_sound (eqv : List α × α → List α × α → Bool) (h : SoundEqv eqv) (p : Aff α) (x : List α) :
+    Poly.Mem (Aff.ofRows p.indim (Poly.dedupAux eqv [] p.rows)) x ↔ Poly.Mem p x := by
+  unfold Poly.Mem
+  rw [ofRows_rows]
+  exact dedupAux_mem _ h x [] p.rows (by simp)
+
+example : (Poly.removeDuplicateRows 0 (⟨[[1, 0], [0, 1], [2, 0], [1, 0], [0, 0], [0, 0]], [1, 1, 2, 3, 5, 5], 2⟩ : Aff Rat)).rows
+    = [([1, 0], 1), ([0, 1], 1), ([1, 0], 3), ([0, 0], 5)] := by decide +kernel
+
+/-- with the code's `eps = 2⁻⁵²` the property fails: `2⁻⁶⁰·x ≤ 1` and `−2⁻⁶⁰·x ≤ 1` are "duplicates", the second is
+    dropped, and `x = −2⁶¹` satisfies the result but not the original system (replayed on the implementation:
+    known finding F-C15-duplicate-rows-below-epsilon) -/
+theorem C15_remove_duplicate_rows_eps_counterexample :
+    let eps : Rat := 1 / 2^52
+    let p : Aff Rat := ⟨[[1 / 2^60], [-(1 / 2^60)]], [1, 1], 1⟩
+    let x : List Rat := [-(2^61)]
+    Poly.memb (Poly.removeDuplicateRows eps p) x = true ∧ Poly.memb p x = false := by
+  decide +kernel
+
 
 end AV
